@@ -136,7 +136,13 @@ func (s *sub) Unsubscribe(clientID string, topics ...string) error {
 	defer s.mu.Unlock()
 	c := s.pool.Get()
 	defer c.Close()
-	_, err := c.Do("hdel", subPrefix+clientID, topics)
+	// HDEL key field [field ...]: every topic is its own argument
+	args := make([]interface{}, 0, len(topics)+1)
+	args = append(args, subPrefix+clientID)
+	for _, t := range topics {
+		args = append(args, t)
+	}
+	_, err := c.Do("hdel", args...)
 	if err != nil {
 		return err
 	}
